@@ -420,6 +420,107 @@ theorem replace_fullname_components (imp : Imp) (o n : Str) :
       · exact splitDot_no_dot n p hp
       · exact splitDot_no_dot _ p (List.mem_of_mem_drop hp)
 
+/-! ### prefix-exactness for whole maps
+
+  `transform_imports` applies the entries one after the other, in dict iteration order, each to the result of
+  the previous ones (not "longest match", not "first match only").  For maps whose NEWs are not dotted-prefix
+  related to a *later* OLD this is: the first entry in dict order whose OLD is a dotted prefix of the path is
+  applied, once; every other import is untouched. -/
+
+/-- component-prefix relatedness of two dotted names -/
+def Related (a b : Str) : Prop := splitDot a <+: splitDot b ∨ splitDot b <+: splitDot a
+
+/-- no NEW is dotted-prefix related to the OLD of an entry that comes later in the dict -/
+def NonInterfering : RMap → Prop
+  | [] => True
+  | kv :: rest => (∀ kv' ∈ rest, ¬ Related kv'.1 kv.2) ∧ NonInterfering rest
+
+def relatedB (a b : Str) : Bool :=
+  (splitDot a).isPrefixOf (splitDot b) || (splitDot b).isPrefixOf (splitDot a)
+
+/-- executable form of `NonInterfering` (the driver reports it for every map the oracle accepts) -/
+def nonInterferingB : RMap → Bool
+  | [] => true
+  | kv :: rest => rest.all (fun kv' => !relatedB kv'.1 kv.2) && nonInterferingB rest
+
+theorem nonInterferingB_iff (m : RMap) : nonInterferingB m = true ↔ NonInterfering m := by
+  induction m with
+  | nil => simp [nonInterferingB, NonInterfering]
+  | cons kv rest ih =>
+    simp only [nonInterferingB, NonInterfering, Bool.and_eq_true, List.all_eq_true, ih, Related, relatedB,
+      Bool.not_eq_true', Bool.or_eq_false_iff, not_or, ← List.isPrefixOf_iff_prefix, Bool.not_eq_true]
+
+/-- the first entry (dict order) whose OLD is a dotted prefix of `f` -/
+def firstMatch (m : RMap) (f : Str) : Option (Str × Str) :=
+  m.find? fun kv => (splitDot kv.1).isPrefixOf (splitDot f)
+
+theorem prefix_comparable {α} {a b c : List α} (ha : a <+: c) (hb : b <+: c) : a <+: b ∨ b <+: a := by
+  rcases Nat.le_total a.length b.length with h | h
+  · exact Or.inl (List.prefix_of_prefix_length_le ha hb h)
+  · exact Or.inr (List.prefix_of_prefix_length_le hb ha h)
+
+/-- C18_exact for maps: under `NonInterfering`, the result of the whole fold is the import itself when no OLD
+    is a dotted prefix of its path, and otherwise `Import.replace` by the first such entry in dict order —
+    whatever other entries exist (siblings such as `util`/`utils`, nested ones such as `a`/`a.b`), wherever
+    they stand. -/
+theorem C18_exact_map (m : RMap) (hm : NonInterfering m) (imp : Imp) :
+    transformImport m imp =
+      match firstMatch m imp.fullname with
+      | none => imp
+      | some kv => imp.replace kv.1 kv.2 := by
+  induction m generalizing imp with
+  | nil => rfl
+  | cons kv rest ih =>
+    rw [transformImport_cons]
+    by_cases hp : splitDot kv.1 <+: splitDot imp.fullname
+    · have hfm : firstMatch (kv :: rest) imp.fullname = some kv := by
+        simp [firstMatch, List.find?, List.isPrefixOf_iff_prefix.mpr hp]
+      rw [hfm]
+      simp only
+      apply C18_no_match_unchanged
+      intro kv' hkv' hu
+      have h1 : splitDot kv'.1 <+: splitDot (imp.replace kv.1 kv.2).fullname := (under_iff _ _).mpr hu
+      rw [replace_fullname_components, (C18_exact _ _ _ _).2.1 hp] at h1
+      have h2 : splitDot kv.2 <+: splitDot kv.2 ++ List.drop (splitDot kv.1).length (splitDot imp.fullname) :=
+        List.prefix_append _ _
+      exact hm.1 kv' hkv' (prefix_comparable h1 h2)
+    · have hne : ¬ (imp.fullname = kv.1 ∨ (kv.1 ++ ['.']) <+: imp.fullname) :=
+        fun h => hp ((under_iff _ _).mpr h)
+      rw [(C18_exact_str imp kv.1 kv.2).2.2 hne, ih hm.2]
+      have : firstMatch (kv :: rest) imp.fullname = firstMatch rest imp.fullname := by
+        have hb : (splitDot kv.1).isPrefixOf (splitDot imp.fullname) = false := by
+          rw [Bool.eq_false_iff]; intro h; exact hp (List.isPrefixOf_iff_prefix.mp h)
+        simp [firstMatch, List.find?, hb]
+      rw [this]
+
+/-- ... and the entry found is one whose OLD is the path or the path up to a dot — never a character prefix. -/
+theorem firstMatch_under (m : RMap) (f : Str) (kv : Str × Str) (h : firstMatch m f = some kv) :
+    kv ∈ m ∧ (f = kv.1 ∨ (kv.1 ++ ['.']) <+: f) := by
+  unfold firstMatch at h
+  refine ⟨List.mem_of_find?_eq_some h, ?_⟩
+  have := List.find?_some h
+  exact (under_iff _ _).mp (List.isPrefixOf_iff_prefix.mp this)
+
+/-- sibling keys that are character prefixes of one another with parallel values (`ut -> c.ut`, `uts -> c.uts`),
+    in both dict orders: `uts.q` is renamed by the `uts` entry, `ut.q` by the `ut` entry, `utx` by neither. -/
+theorem sibling_witness :
+    transformImport [(['u','t'], ['c','.','u','t']), (['u','t','s'], ['c','.','u','t','s'])] ⟨['u','t','s','.','q'], ['q']⟩
+      = ⟨['c','.','u','t','s','.','q'], ['q']⟩ ∧
+    transformImport [(['u','t','s'], ['c','.','u','t','s']), (['u','t'], ['c','.','u','t'])] ⟨['u','t','s'], ['u','t','s']⟩
+      = ⟨['c','.','u','t','s'], ['c','.','u','t','s']⟩ ∧
+    transformImport [(['u','t'], ['c','.','u','t']), (['u','t','s'], ['c','.','u','t','s'])] ⟨['u','t','.','q'], ['q']⟩
+      = ⟨['c','.','u','t','.','q'], ['q']⟩ ∧
+    transformImport [(['u','t'], ['c','.','u','t']), (['u','t','s'], ['c','.','u','t','s'])] ⟨['u','t','x'], ['u','t','x']⟩
+      = ⟨['u','t','x'], ['u','t','x']⟩ ∧
+    transformText false [(['u','t'], ['c','.','u','t']), (['u','t','s'], ['c','.','u','t','s'])]
+        ['u','t','s','.','q',' ','u','t','.','q',' ','u','t','x'] =
+        ['c','.','u','t','s','.','q',' ','c','.','u','t','.','q',' ','u','t','x'] := by decide
+
+example : NonInterfering [(['u','t'], ['c','.','u','t']), (['u','t','s'], ['c','.','u','t','s'])] := by
+  refine ⟨?_, ?_, trivial⟩
+  · intro kv' h; simp at h; subst h; unfold Related; decide
+  · intro kv' h; simp at h
+
 /-- the fold on component lists -/
 def transformC (m : List (List Str × List Str)) (f : List Str) : List Str :=
   m.foldl (fun f kv => (replaceC f f kv.1 kv.2).1) f
